@@ -142,7 +142,7 @@ def ro_case(draw, families=None, exact_only=False, max_cons=4, allow_eq=True, al
                 obj['pw_shift'] = {'g': _vec(draw, nx), 'g0': float(draw(st.integers(-2, 2))), 'side': draw(st.sampled_from(['right', 'left', 'sub']))}
     case = {'nx': nx, 'ny': ny, 'nz': nz, 'nu': nu, 'ymask': ymask, 'sets': sets, 'cons': cons,
             'xlo': xlo, 'xhi': xhi, 'obj': obj, 'witness': {'x': xbar, 'y0': ybar, 'Y': Ybar},
-            'set_arg': draw(st.sampled_from(['list', 'tuple', 'varargs'])),
+            'set_arg': draw(st.sampled_from(['list', 'tuple', 'varargs'])), 'late_rvar': draw(st.integers(0, 3)) == 0,
             'adapt_style': draw(st.sampled_from(['whole', 'entry', 'mixed'])),
             'xbound_style': draw(st.sampled_from(['bounds', 'rows']))}
     fill_constants(case)
@@ -293,6 +293,10 @@ def build(case, order=None):
                         if cols[j]:
                             y[k].adapt(rv[j])
     sets_rs = [rosets.rsome_constraints(s, z, u) for s in case['sets']]
+    if case.get('late_rvar') and ny:
+        # one more random array declared after the adapt() calls (it only appears in the sets, bounded by 1)
+        w_late = m.rvar(2)
+        sets_rs = [cs + [abs(w_late) <= 1] for cs in sets_rs]
 
     def setarg(k):
         cs = sets_rs[k]
